@@ -648,7 +648,12 @@ impl Session {
 
   /// Open an existing index (after a crash / relocation / corruption).
   pub fn open(cfg: &Cfg, root: &Path, fs: Option<SimFs>) -> Result<Session, Outcome> {
-    let opts = index_options(cfg, root, false);
+    Self::open_with(cfg, root, fs, false)
+  }
+
+  /// `create_if_missing` as an application that "opens or creates" would pass it.
+  pub fn open_with(cfg: &Cfg, root: &Path, fs: Option<SimFs>, create_if_missing: bool) -> Result<Session, Outcome> {
+    let opts = index_options(cfg, root, create_if_missing);
     let index = guarded(|| Index::open(opts))?;
     Ok(Session {
       cfg: cfg.clone(),
